@@ -119,6 +119,8 @@ def drive(g, tid=0, cap=600, seed=0, encoders=('complete', 'fast'), redecode=Tru
         b = build(g)
     except SkipInput as e:
         return {'tid': tid, 'skip': str(e)}
+    except Exception as e:
+        return {'tid': tid, 'skip': 'builder raised %s (reported by the graph layer)' % type(e).__name__}
     ev = []
     init_feasible = bool(b.dsg.feasible)
     for enc in encoders:
